@@ -46,9 +46,24 @@ func (r *Run) genBasis(filter func(*basis.Schema) bool, opts []basis.Options) (*
 		}
 		ok = append(ok, j)
 	}
+	vc.Tolerant = true
 	e, err := r.loadEngine(dir, "./gen/...")
+	vc.Tolerant = false
 	if err != nil {
 		return nil, fmt.Errorf("generated code does not load: %v", err)
+	}
+	if len(e.BadPkgs) > 0 {
+		// the repository accepted the schema and emitted Go that does not compile: a finding about C12
+		// (whatever is accepted compiles), not about the property this check decides; the package is left out
+		var kept []*basis.Job
+		for _, j := range ok {
+			if msgs, isBad := e.BadPkgs[j.PkgPath()]; isBad {
+				r.Assumptions[fmt.Sprintf("basis package %s left out: the generated code does not compile (%s)", j.Name, trunc(strings.Join(msgs, "; "), 200))] = true
+				continue
+			}
+			kept = append(kept, j)
+		}
+		ok = kept
 	}
 	for _, j := range ok {
 		g := basis.NewSpecGen(e, j)
